@@ -117,3 +117,65 @@ def reg_circuit(rng, adversarial=0.15, max_insts=10):
     inputs = [bits(rng, s) for s in sizes]
     ands = sum(1 for i in insts if i[1] == "A")
     return {"input_regs": sizes, "insts": insts, "max_reg_count": maxreg, "output_regs": outs, "and_ops": ands}, inputs
+
+
+def valid_ssa(rng, max_gates=30, style=None):
+    """A well-formed SSA circuit (passes validate) with the shapes the register allocator cares about."""
+    style = style or rng.choice(["random", "chain", "fanout", "repeat", "unused", "wide"])
+    nparties = rng.choice([1, 2, 3])
+    sizes = [rng.choice([0, 1, 2, 3]) for _ in range(nparties)]
+    if sum(sizes) == 0:
+        sizes[rng.randrange(nparties)] = rng.choice([1, 2])
+    ninp = sum(sizes)
+    ngates = rng.randrange(0, max_gates + 1)
+    gates = []
+    for k in range(ngates):
+        i = ninp + k
+
+        def ref():
+            if style == "chain" and k > 0 and rng.random() < 0.8:
+                return i - 1
+            if style == "fanout" and rng.random() < 0.6:
+                return rng.randrange(0, min(i, 2) or 1)
+            if style == "wide" and rng.random() < 0.7:
+                return rng.randrange(0, ninp)
+            return rng.randrange(0, i)
+
+        kind = rng.choice(["X", "X", "A", "A", "N"])
+        if kind == "N":
+            gates.append(["N", ref()])
+        else:
+            a = ref()
+            b = a if (style == "repeat" and rng.random() < 0.4) or rng.random() < 0.05 else ref()
+            gates.append([kind, a, b])
+    nw = ninp + ngates
+    nout = rng.choice([1, 1, 2, 3, 6])
+    outs = []
+    for _ in range(nout):
+        r = rng.random()
+        if r < 0.15:
+            outs.append(rng.randrange(0, ninp))  # an input wire as output
+        elif r < 0.3 and outs:
+            outs.append(rng.choice(outs))  # repeated output
+        elif style == "unused" and nw > ninp:
+            outs.append(rng.randrange(ninp, max(ninp + 1, ninp + ngates // 3)))
+        else:
+            outs.append(rng.randrange(0, nw))
+    return {"input_gates": sizes, "gates": gates, "output_gates": outs}
+
+
+def assignments(rng, sizes, limit_bits=8, nrandom=32):
+    n = sum(sizes)
+    res = []
+    if n <= limit_bits:
+        for a in range(2 ** n):
+            k = 0
+            ins = []
+            for s in sizes:
+                ins.append("".join(str((a >> (k + j)) & 1) for j in range(s)))
+                k += s
+            res.append(ins)
+    else:
+        for _ in range(nrandom):
+            res.append([bits(rng, s) for s in sizes])
+    return res
